@@ -457,9 +457,9 @@ func c9namings(shape *c9pat) []*c9pat {
 func c9special() []*c9pat {
 	aName, bName := c9name("a"), c9name("b")
 	return []*c9pat{
-		c9arr(c9it(aName), c9rest("a")),                                                         // rest name repeats a plain name: must agree
-		c9tup(c9attr("x", c9name("a")), c9rest("a")),                                            // the same for tuple, dict and set patterns
-		c9tup(c9attr("x", c9arr(c9it(c9name("a")), c9it(c9wild()))), c9rest("a")),               // ... also when the repeat is nested
+		c9arr(c9it(aName), c9rest("a")),                                           // rest name repeats a plain name: must agree
+		c9tup(c9attr("x", c9name("a")), c9rest("a")),                              // the same for tuple, dict and set patterns
+		c9tup(c9attr("x", c9arr(c9it(c9name("a")), c9it(c9wild()))), c9rest("a")), // ... also when the repeat is nested
 		c9dict(c9entry("k", c9name("a")), c9rest("a")),
 		c9set(c9it(c9num(1)), c9it(c9name("a")), c9rest("a")),
 		c9set(c9it(aName), c9it(c9name("a"))),                                                   // {a, a}
